@@ -14,6 +14,9 @@ def run(c, mode="chunk", name="C12"):
     res, d = c.tool("streamcheck", ["-seed", c.seed, "-tier", c.tier, "-mode", mode])
     if res is not None:
         c.corr("Stream.entry_minify/entry_reader/entry_writer vs (*M).Minify/Reader/Writer on the same reader scripts and writer failures (run and skeleton flags observed from the plain call)", d)
+        if os.path.exists(os.path.join(d, "cases_http.in")):
+            c.corr("Stream.serve/close_err (model of responseWriter + Middleware) vs the real MiddlewareWithError on random handler scripts over a stub registry (tables from the plain Minify call)",
+                   d, cases="cases_http.in", impl="cases_http.go.out")
     c.replay_known(None)
     c.cov["trusted_base"] += [
         "%s: io.ReadAll / io.Pipe / sync.WaitGroup semantics as modelled in Stream/StreamModel.v and StreamPipe.v (Go runtime and scheduler are not modelled; the runs sample real schedules with GOMAXPROCS=16 and Gosched jitter)" % name,
